@@ -155,6 +155,11 @@ def SpecSet.str (_S : SpecSet) (it : List Member) : Str :=
 def SpecSet.eq (a b : SpecSet) : Bool :=
   a.specs.length == b.specs.length && a.specs.all fun m => hasKey b.specs (key m.1)
 
+/-- the member's own string is one clean clause that parses back to the member (decidable; hypothesis of the
+`str` round-trip theorem, evaluated by the driver on every constructed set) -/
+def roundtrips (sp : Spec) : Bool :=
+  !(sp.str.contains 44) && strip sp.str == sp.str && parseSpec sp.str == some sp
+
 /-- `len(self._specs)` -/
 def SpecSet.len (S : SpecSet) : Nat := S.specs.length
 
